@@ -367,6 +367,16 @@ def run(ctx):
         ctx.check(bool(zb) and bool(edges) and not sep(f, edges, zb), "SEP", key, "equal-length-before-zip",
                   "scalars and points are zipped without the equal-length refusal: a missing point would silently drop a term", f.loc)
     lagrange_kernel(ctx)
+    # valid inputs are not refused: the count / parameter refusals are exactly the specified ones (a stricter comparison
+    # such as `<=`, `>=` or an added upper bound does not match the exact normal form and is reported here)
+    from .c03 import sign_count_refusal, aggregate_count_refusal
+    from .c06 import check_validate
+    sign_count_refusal(ctx)
+    aggregate_count_refusal(ctx)
+    check_validate(ctx)
+    # keys from distributed key generation, arbitrary identifiers: the public package is keyed by the real identifiers
+    from .c07 import helpers as dkg_package_helpers
+    dkg_package_helpers(ctx)
     # (2) role agreement
     roles(ctx)
     # (3) kernels
